@@ -309,6 +309,11 @@ pub fn random_edit(prop: &str, rng: &mut Rng, world: &mut World) -> Option<J> {
             if !world.st.disk.contains_key(&s) {
                 return None;
             }
+            if rng.chance(1, 6) {
+                let before = rng.chance(1, 2);
+                world.stamp_epoch(&s, before);
+                return Some(op(if before { "stamp-source-before-epoch" } else { "stamp-source-at-epoch" }, s));
+            }
             world.touch(&s);
             Some(op("touch-source", s))
         }
@@ -332,6 +337,10 @@ pub fn random_edit(prop: &str, rng: &mut Rng, world: &mut World) -> Option<J> {
             let o = rng.pick(&outs).clone();
             if !world.st.disk.contains_key(&o) {
                 return None;
+            }
+            if rng.chance(1, 6) {
+                world.stamp_epoch(&o, false);
+                return Some(op("stamp-output-at-epoch", o));
             }
             world.touch(&o);
             Some(op("touch-output", o))
@@ -768,6 +777,11 @@ fn history_case(ctx: &Ctx, dir: &std::path::Path, case: u64, seed: u64, rep: &mu
             inv.adopt = true;
             inv.faults.clear();
         }
+        if matches!(prop, "C02" | "C03" | "C08" | "C09") && !restat && rng.chance(1, 8) {
+            // n2 dies while appending to the log (any write, any byte count): later invocations
+            // see exactly the records that were completely written
+            inv.crash = Some((rng.below(8), rng.below(30)));
+        }
         let proj_before = world.proj.clone();
         let pred = predict_inv(&world, &inv);
         let (w, out) = run_inv(world, &inv);
@@ -775,6 +789,13 @@ fn history_case(ctx: &Ctx, dir: &std::path::Path, case: u64, seed: u64, rep: &mu
         rep.evaluations += 1;
         hist.builds += 1;
         hist.ops.push(J::obj().with("build", inv.to_json()).with("started", J::Arr(out.started.iter().map(|v| J::strs(v.iter().cloned())).collect())).with("result", J::s(format!("{:?}", out.result))));
+        if matches!(out.result, InvResult::Crashed) {
+            rep.count("crashed_builds_in_history", 1);
+            hist.sig = fnv_combine(hist.sig, out.interleaving_hash());
+            hist.edits_between = true;
+            last_success_no_edit = None;
+            continue;
+        }
         hist.sig = fnv_combine(hist.sig, out.interleaving_hash());
         let eff = sorted(&world.proj.effective_targets(&inv.targets));
         let mut expect_noop = last_success_no_edit.as_ref() == Some(&eff) && inv.faults.is_empty();
